@@ -952,6 +952,7 @@ func (vc *VC) evalTypeAssert(st *State, x *ast.TypeAssertExpr) (*Value, string) 
 		// interface-to-interface assertion: succeeds for non-nil values whose dynamic type implements T (unknown)
 		ok := vc.fresh("implements", "Bool")
 		st.assume(smtImp(ok, smtNot(smtEq(v.Term, "0"))))
+		vc.ifaceAsserts = append(vc.ifaceAsserts, ifaceAssert{ok: ok, val: v.Term, T: T})
 		return intV(v.Term, T), ok
 	}
 	ok := smtAnd(smtNot(smtEq(v.Term, "0")), smtEq(app("typeof", v.Term), vc.typeTag(T)))
